@@ -378,6 +378,94 @@ func runMutated(c *core.Case) {
 	c.Count("docs.mutated", 16)
 }
 
+// decoder-stream: streams longer than the Decoder's read quantum (4 KiB) and
+// initial buffer (32 KiB) whose early part is printable ASCII without
+// backslashes and whose later values contain escapes, control bytes and
+// non-ASCII bytes (and the reverse order): whatever the Decoder concluded about
+// one buffer-full must not leak into the framing of the next.
+var hostileTails = []string{`"a\"b"`, `"tab\there"`, "\"ctl\x01\"", `"bad\qescape"`, "\"é\"", `"\u00e9"`, `{"a\\":1}`, "\"\x7f\"", `"\ud800"`, `["x\\"]`,
+	`"\\"`, `{"k":"v\n"}`, "\"new\nline\"", `"q\"`, `"\u12"`, "[\"\x00\"]", `"ok"`, "{\"\t\":1}", `"\/"`, "\"\xff\xfe\""}
+
+func cleanValue(r *core.Rand) string {
+	switch r.Intn(4) {
+	case 0:
+		return `{"k":"` + r.ASCIIString(0, 40) + `","n":[1,2,3]}`
+	case 1:
+		return `"` + r.ASCIIString(0, 80) + `"`
+	case 2:
+		return `[` + `"` + r.ASCIIString(1, 10) + `",true,null]`
+	default:
+		return `{"id":{"x":"` + r.ASCIIString(3, 300) + `"}}`
+	}
+}
+
+func runDecoderStream(c *core.Case) {
+	c.Journal("decoder-stream")
+	r := c.Rng
+	targets := []int{3900, 4090, 8100, 32600, 32760, 33000, 65400, 70000, 140000}
+	target := targets[c.Index%len(targets)] + r.Intn(200)
+	var sb strings.Builder
+	seps := []string{" ", "\n", "", "\r\n", "  \t"}
+	hostileFirst := r.Chance(1, 4)
+	emitTail := func() {
+		n := 1 + r.Intn(4)
+		for i := 0; i < n; i++ {
+			sb.WriteString(hostileTails[r.Intn(len(hostileTails))])
+			sb.WriteString(core.Pick(r, seps))
+		}
+	}
+	if hostileFirst {
+		emitTail()
+	}
+	for sb.Len() < target {
+		sb.WriteString(cleanValue(r))
+		sb.WriteString(core.Pick(r, seps))
+	}
+	emitTail()
+	for i := 0; i < 3; i++ {
+		sb.WriteString(cleanValue(r))
+		sb.WriteString(core.Pick(r, seps))
+	}
+	w := []byte(sb.String())
+	var pv, sv [][]byte
+	var pe, se error
+	if sig, stack := core.Guard(func() {
+		pv, pe = decodeAll(func(rd io.Reader) func(any) error { return json.NewDecoder(rd).Decode }, cp(w))
+	}); sig != "" {
+		c.Violation("decoder-stream", sig, stack, map[string]any{"stream_len": len(w), "tail": trunc(string(w[max(0, len(w)-400):]))})
+		return
+	}
+	sv, se = decodeAll(func(rd io.Reader) func(any) error { return stdjson.NewDecoder(rd).Decode }, w)
+	same := len(pv) == len(sv) && (pe == io.EOF) == (se == io.EOF)
+	firstDiff := -1
+	for i := 0; same && i < len(pv); i++ {
+		if !bytes.Equal(pv[i], sv[i]) {
+			same = false
+			firstDiff = i
+		}
+	}
+	if !same {
+		out := "values-diff"
+		if len(pv) > len(sv) {
+			out = "pkg=more-values"
+		} else if len(pv) < len(sv) {
+			out = "pkg=fewer-values"
+		} else if (pe == io.EOF) != (se == io.EOF) {
+			out = "terminal-diff"
+		}
+		off := 0
+		for i := 0; i < len(pv) && i < len(sv) && bytes.Equal(pv[i], sv[i]); i++ {
+			off += len(pv[i])
+		}
+		c.Violation("decoder-stream", out, fmt.Sprintf("stream of %d bytes (hostile values %s): pkg %d values then %v; std %d values then %v; first differing value #%d", len(w), map[bool]string{true: "first", false: "after the clean prefix"}[hostileFirst], len(pv), pe, len(sv), se, firstDiff),
+			map[string]any{"stream_len": len(w), "stream_tail": trunc(string(w[max(0, len(w)-600):]))})
+	}
+	c.Count("docs.decoder-stream", 1)
+	c.Count("values.decoder-stream", len(sv))
+	c.Distinct(core.HashBytes(w), true)
+	c.Sample(len(w)/1000, map[string]any{"sub": "decoder-stream", "stream_len": len(w), "values": len(sv), "std_terminal": fmt.Sprint(se), "tail": trunc(string(w[max(0, len(w)-120):]))})
+}
+
 func trunc(s string) string {
 	if len(s) > 300 {
 		return s[:300] + "…"
@@ -388,7 +476,7 @@ func trunc(s string) string {
 func init() {
 	core.Register(&core.Monitor{
 		Prop:    "C05",
-		Rule:    "Every document goes through json.Valid and through syntax-only consumers (Marshal of RawMessage / Marshaler output / RawMessage field, Unmarshal into RawMessage, unknown-field skip, RawMessage field, surplus elements of [1]int and [0]int, skipped member between known fields, Decoder framing of d, 'd d' and 'dd'); each is compared with the same operation of encoding/json on the same bytes (accept/reject; for the Decoder the framed values and EOF-vs-error). Families: bytes-exhaustive (all strings of length <= 4 (quick) / 5 (thorough) over a 35-byte JSON-significant alphabet), tokens-exhaustive (all sequences of <= 3 / 4 tokens over a 40-token alphabet), string-sweep (content length 0-40 x every position x 16 special sequences x 5 contexts), number-grammar (sign x int x frac x exp product in 6 contexts), nesting (depth 1..20000 around 10000), mutated (generated documents with 1-3 byte mutations). Quick runs one rotating consumer per document besides Valid, thorough all of them. Distinct = distinct chunk / document; non-trivial = non-empty.",
+		Rule:    "Every document goes through json.Valid and through syntax-only consumers (Marshal of RawMessage / Marshaler output / RawMessage field, Unmarshal into RawMessage, unknown-field skip, RawMessage field, surplus elements of [1]int and [0]int, skipped member between known fields, Decoder framing of d, 'd d' and 'dd'); each is compared with the same operation of encoding/json on the same bytes (accept/reject; for the Decoder the framed values and EOF-vs-error). Families: bytes-exhaustive (all strings of length <= 4 (quick) / 5 (thorough) over a 35-byte JSON-significant alphabet), tokens-exhaustive (all sequences of <= 3 / 4 tokens over a 40-token alphabet), string-sweep (content length 0-40 x every position x 16 special sequences x 5 contexts), number-grammar (sign x int x frac x exp product in 6 contexts), nesting (depth 1..20000 around 10000), mutated (generated documents with 1-3 byte mutations), decoder-stream (streams of 4-140 KiB of self-delimiting values: printable-ASCII values followed or preceded by values with escapes, control and non-ASCII bytes, framed by Decoder vs encoding/json's Decoder). Quick runs one rotating consumer per document besides Valid, thorough all of them. Distinct = distinct chunk / document; non-trivial = non-empty.",
 		Trusted: []string{"encoding/json (go1.23.5): Valid, Marshal, Unmarshal, Decoder as the reference for accept/reject"},
 		Subs: []core.Sub{
 			{Name: "bytes-exhaustive", N: func(t core.Tier) int {
@@ -407,6 +495,7 @@ func init() {
 			{Name: "number-grammar", N: core.Const(4, 4), Run: runNumberGrammar},
 			{Name: "nesting", N: func(core.Tier) int { return 3 * len(depths) }, Run: runNesting},
 			{Name: "mutated", N: core.Const(12000, 400000), Run: runMutated},
+			{Name: "decoder-stream", N: core.Const(900, 20000), Run: runDecoderStream},
 		},
 	})
 }
